@@ -26,6 +26,16 @@ theorem normMd_length (md : Option (List Md)) (n k : Nat)
     · cases hm
     · cases hm; exact h _ rfl
 
+theorem castMd_some (md : Option (List Md)) (m : List Md) (h : castMd md = some m) : md = some m := by
+  unfold castMd at h
+  cases md with
+  | none => simp at h
+  | some m0 =>
+    simp only at h
+    split at h
+    · cases h
+    · exact h
+
 /-- A validated constructor call that describes a non-empty table and is accepted under the default
 error profile yields a coherent table — this is the last step of `sort_order`, `transpose`, `copy`,
 `collapse`, `merge`, `concat`, `head`, `subsample`, `align_to`, … whatever their arguments were. -/
@@ -52,12 +62,12 @@ theorem construct_coherent (a : CtorArgs) (s : TState) (hne : Op.NonEmptyCtor (.
     · simp only [hoi, Option.getD_none]
       refine axisCoherent_indexList _ _ _ h3.symm hond ?_
       intro m hm
-      rw [hm] at h2
+      rw [castMd_some _ _ hm] at h2
       exact (by simpa using h2 : a.nrows = m.length).symm
     · simp only [hsi, Option.getD_none]
       refine axisCoherent_indexList _ _ _ h6.symm hsnd ?_
       intro m hm
-      rw [hm] at h5
+      rw [castMd_some _ _ hm] at h5
       exact (by simpa using h5 : a.ncols = m.length).symm
 
 /-! ### in-place operations -/
@@ -77,6 +87,7 @@ theorem filterInplace_coherent (s s' : TState) (ax : Axis) (mask : List Bool) (h
       · refine axisCoherent_indexList _ _ _ (filterMask_length_eq _ _ _ hlen.symm)
           (filterMask_nodup _ _ hc.obs.2.1) ?_
         intro m hm
+        have hm := castMd_some _ _ hm
         cases hmd : s.obs.md with
         | none => simp [hmd] at hm
         | some m0 =>
@@ -96,6 +107,7 @@ theorem filterInplace_coherent (s s' : TState) (ax : Axis) (mask : List Bool) (h
       · refine axisCoherent_indexList _ _ _ (filterMask_length_eq _ _ _ (by simp [hc.samp.1]))
           (filterMask_nodup _ _ hc.samp.2.1) ?_
         intro m hm
+        have hm := castMd_some _ _ hm
         cases hmd : s.samp.md with
         | none => simp [hmd] at hm
         | some m0 =>
@@ -141,7 +153,7 @@ theorem addMd_fold_length (index : Dict) (mapping : List (Id × Md)) (m : List M
 theorem addMetadata_coherent (s : TState) (ax : Axis) (mapping : List (Id × Md)) (hc : Coherent s) :
     Coherent (addMetadata s ax mapping) := by
   have key : ∀ (a : AxisSt) (n : Nat), AxisCoherent a n →
-      AxisCoherent { a with md :=
+      AxisCoherent { a with md := castMd <|
         match a.md with
         | some m => some (mapping.foldl (fun m (idv : Id × Md) =>
             match dictGet a.index idv.1 with
@@ -152,6 +164,7 @@ theorem addMetadata_coherent (s : TState) (ax : Axis) (mapping : List (Id × Md)
     intro a n ha
     refine ⟨ha.1, ha.2.1, ha.2.2.1, ?_⟩
     intro m hm
+    have hm := castMd_some _ _ hm
     cases hmd : a.md with
     | some m0 =>
       simp only [hmd, Option.some.injEq] at hm
